@@ -101,7 +101,7 @@ def build(name, pl):
         op = cb.Revolve(cb.Face([P(1, 0, 0), P(1, 0, 1), P(2, 0, 1), P(2, 0, 0)]), math.pi / 3, D(0, 0, 1), P(0, 0, 0))   # face normal along the sweep
         for ax in range(3):
             op.chop(ax, count=2)
-        return [op], {"vertices": 8, "axis": (D(0, 0, 1), P(0, 0, 0))}
+        return [op], {"vertices": 8, "axis": (D(0, 0, 1), P(0, 0, 0)), "rev_axis": ((0, 0, 0), (0, 0, 1)), "rev_arcs": 4}
     if name == "Cylinder":
         s = cb.Cylinder(P(0, 0, 0), P(0, 0, 2), P(1, 0, 0))
         _chop_round(s)
@@ -128,7 +128,7 @@ def build(name, pl):
         s.chop_axial(count=3)
         s.chop_radial(count=2)
         s.chop_tangential(count=4)
-        return [s], {"vertices": 16}
+        return [s], {"vertices": 16, "rev_axis": ((0, 0, 0), (1, 0, 0)), "rev_arcs": 16}
     if name == "Hemisphere":
         s = cb.Hemisphere(P(0, 0, 0), P(1, 0, 0), D(0, 0, 1))
         s.chop_axial(count=3)
@@ -145,6 +145,32 @@ def build(name, pl):
                 op.chop(ax, count=2)
         st.chop(count=3)
         return [st], {"vertices": 3 * 4 * 3}
+    if name == "RevolvedStack":
+        g = cb.Grid([1, 0, 0], [2, 1, 0], 1, 2)
+        st = cb.RevolvedStack(g, math.pi / 3, [0, -1, 0], [0, 0, 0], 2)
+        st = _place_entity(st, pl)
+        for op in st.shapes[0].operations:
+            for ax in (0, 1):
+                op.chop(ax, count=2)
+        st.chop(count=3)
+        return [st], {"vertices": 2 * 3 * 3, "rev_axis": ((0, 0, 0), (0, 1, 0)), "rev_arcs": 12, "rev_kinds": ("arc",)}
+    if name == "Wedge":
+        # (a wedge is revolved about the global x axis by construction: built canonically, placed with the library's transforms)
+        # (angle 0.8 rad: with thin wedges the absolute collinearity tolerance of ArcEdge.is_valid turns the arcs into lines
+        #  at the small end of the scale range - a documented tolerance effect, not part of the claim)
+        op = cb.Wedge(cb.Face([[0, 1, 0], [2, 1, 0], [2, 2.5, 0], [0, 2, 0]]), 0.8)
+        op = _place_entity(op, pl)
+        op.chop(0, count=2)
+        op.chop(1, count=2)
+        return [op], {"vertices": 8, "rev_axis": ((0, 0, 0), (1, 0, 0)), "rev_arcs": 4}
+    if name == "Shell":
+        faces = [cb.Face([P(0, 0, 0), P(1, 0, 0), P(1, 1, 0), P(0, 1, 0)]), cb.Face([P(1, 0, 0), P(2, 0, 0.5), P(2, 1, 0.5), P(1, 1, 0)])]
+        s = cb.Shell(faces, L(0.3))
+        s.chop(count=2)
+        for op in s.operations:
+            op.chop(0, count=2)
+        s.operations[0].chop(1, count=2)
+        return [s], {"vertices": 12}
     if name in ("OneCoreDisk", "FourCoreDisk", "HalfDisk", "WrappedDisk", "Oval"):
         if name == "WrappedDisk":
             sk = cb.WrappedDisk(P(0, 0, 0), P(2, 2, 0), L(1.0), D(0, 0, 1))
@@ -301,6 +327,26 @@ def check_blocking(sx, mesh, pl, info, tag, allow_collapsed=False):
                 conds.append(sx.all([on_rim(m), sx.close(m[2], a[2], 1e-7)]))
         sx.prove(sx.all(conds) and len(conds) > 0, f"{tag}: the outer arcs lie on the intended circle", f"C11:outer-arcs:{tag}",
                  info={"arcs": len(conds)})
+    # arcs of revolution: ends and third point at the same distance from, and the same position along, the axis
+    if info.get("rev_axis") is not None:
+        p0, d = [np.array([sx.const(c) for c in v], dtype=object) for v in info["rev_axis"]]
+        dd = _dot(d, d)
+
+        def cyl(q):
+            w = q - p0
+            ax = _dot(w, d)
+            return ax, _dot(w, w) * dd - ax * ax        # (axial * |d|^2 , radial^2 * |d|^2)
+        conds = []
+        for e in mesh.edge_list.edges:
+            if e.kind not in info.get("rev_kinds", ("angle", "arc")):
+                continue
+            a, b, m = (cyl(pl.unplace(q)) for q in (e.vertex_1.position, e.vertex_2.position, e.third_point.position))
+            ends = sx.all([sx.close(a[0], b[0], 1e-7), sx.close(a[1], b[1], 1e-7)])
+            mid = sx.all([sx.close(m[0], a[0], 1e-7), sx.close(m[1], a[1], 1e-7)])
+            # an angle edge is an arc of revolution by definition; a three-point arc is one if its ends are
+            conds.append(sx.all([ends, mid]) if e.kind == "angle" else sx.implies(ends, mid))
+        sx.prove(sx.all(conds) and len(conds) >= info.get("rev_arcs", 1), f"{tag}: every arc of revolution lies on its circle "
+                 "about the axis of revolution", f"C11:revolution-arcs:{tag}", info={"arcs": len(conds)})
 
 
 def g1_sides():
@@ -381,7 +427,7 @@ def run_chain(sx, name, rotated):
 SPLINE = {"QuarterSplineRing": 12, "HalfSplineRing": 20, "SplineRing": 32, "QuarterSplineDisk": None, "HalfSplineDisk": None,
           "SplineDisk": None}
 SHAPES = ["Box", "Extrude", "Revolve", "Cylinder", "SemiCylinder", "Frustum", "ExtrudedRing", "Elbow", "RevolvedRing",
-          "Hemisphere", "ExtrudedStack", "OneCoreDisk", "FourCoreDisk", "HalfDisk", "WrappedDisk", "Oval", "LJoint", "TJoint", "NJoint3", "NJoint4", "QuarterSplineRing", "HalfSplineRing", "SplineRing", "QuarterSplineDisk", "HalfSplineDisk", "SplineDisk"]
+          "Hemisphere", "ExtrudedStack", "RevolvedStack", "Wedge", "Shell", "OneCoreDisk", "FourCoreDisk", "HalfDisk", "WrappedDisk", "Oval", "LJoint", "TJoint", "NJoint3", "NJoint4", "QuarterSplineRing", "HalfSplineRing", "SplineRing", "QuarterSplineDisk", "HalfSplineDisk", "SplineDisk"]
 CHAINS = ["Cylinder.chain", "Cylinder.chain(start)", "Frustum.chain", "Elbow.chain", "ExtrudedRing.expand", "ExtrudedRing.contract",
           "Cylinder.fill", "ExtrudedRing.chain", "Hemisphere.chain"]
 
